@@ -710,7 +710,10 @@ impl TransformerContext {
     }
 
     pub fn push_element(&mut self, el: &SvgElement) {
-        let attrs = el.get_attrs();
+        let mut attrs = el.get_attrs();
+        // (the comment attributes are not variables)
+        attrs.remove("_");
+        attrs.remove("__");
         self.element_stack.push(el.clone());
         let scope = Scope::with_vars(attrs);
         self.scope_stack.push(Rc::new(scope));
